@@ -189,8 +189,8 @@ func (t *TabList) Add(entries ...tablist.Entry) error {
 		if err != nil {
 			return fmt.Errorf("error adding tab list entry %s: %w", entry.Profile(), err)
 		}
-		if len(pkt.ActionSet) == 0 {
-			continue
+		if pkt == nil || len(pkt.ActionSet) == 0 {
+			continue // the entry is already in the list as it is
 		}
 		err = t.Viewer.BufferPacket(pkt)
 		if err != nil {
